@@ -628,6 +628,26 @@ def _(w):
                                 types_or_names=["p0_2_vv", "p0_2_oo"])
 
 
+for _inp, _types in (("p0_2_mix", ["t_amplitude", "mp_density"]),
+                     ("p0_2_mix", ["mp_density", "t_amplitude"]),
+                     ("p0_2_mix", "t_amplitude"), ("p0_2_mix", "mp_density"),
+                     ("t1_2_once", ["mp_density", "t_amplitude"]),
+                     ("t1_2_once", ["t_amplitude", "re_residual"]),
+                     ("t1_2_once", "re_residual"),
+                     ("t2_2_once", ["re_residual", "t_amplitude", "mp_density"]),
+                     ("t2_2_once", "t_amplitude"), ("t2_2_once", ["misc", "t_amplitude"]),
+                     ("t2_2_once", "misc")):
+    def _mk(inp, types):
+        label = types if isinstance(types, str) else "[" + ",".join(types) + "]"
+
+        @tmpl(f"expr.factor_intermediates({inp},types={label})", "expr", "", cost=4)
+        def _(w):
+            from adcgen import factor_intermediates
+            return factor_intermediates(imp(w, inp, real=True, targets=""),
+                                        types_or_names=types)
+    _mk(_inp, _types)
+
+
 @tmpl("expr.factor_intermediates(t2_2_once,t2_2)", "expr", "", cost=4)
 def _(w):
     from adcgen import factor_intermediates
